@@ -9,6 +9,15 @@
 From Coq Require Import String.
 From PV Require Import Base.Prelude Conn.CmdEntry Conn.CmdTable Conn.ConnFSM.
 
+(* compact byte-string literals for generated case files: [nb len 0x616263]
+   = [97;98;99] (big-endian digits of the numeral, [len] bytes) *)
+Fixpoint nb_go (len : nat) (n : N) (acc : bytes) : bytes :=
+  match len with
+  | O => acc
+  | S k => nb_go k (N.shiftr n 8) (N.land n 255 :: acc)
+  end.
+Definition nb (len n : N) : bytes := nb_go (N.to_nat len) n [].
+
 Definition cond_idx (c : cond) : N :=
   match c with OK => 0 | NO => 1 | BAD => 2 | NOTAG => 3 end.
 Definition cond_eqb a b := (cond_idx a =? cond_idx b)%N.
